@@ -444,11 +444,13 @@ func runC19(t *testing.T, rng *rand.Rand, rec *sim.Rec, tier string, caseNo int)
 		t.Fatal(err)
 	}
 	defer w.Shutdown()
+	w.Net.DualStack = true
 	x := &c19{t: t, w: w, m: sim.NewModel(w), rng: rng, rec: rec}
 	var clients []*sim.RawClient
 	for i := 0; i < 3; i++ {
 		ip := net.IPv4(10, 1, 0, byte(1+i)).To4()
-		if v6 {
+		dual := listen == "any6" && i == 1 // an IPv4 client of a dual-stack [::] listener
+		if v6 && !dual {
 			ip = net.ParseIP(fmt.Sprintf("fd00:1::%x", 1+i))
 		} else if i == 2 && rng.Intn(2) == 0 {
 			ip = ip.To16() // IPv4-mapped IPv6 representation of the source
@@ -462,6 +464,9 @@ func runC19(t *testing.T, rng *rand.Rand, rec *sim.Rec, tier string, caseNo int)
 			c.Server = &net.UDPAddr{IP: sim.ServerIP4, Port: 3478}
 		} else if listen == "any6" {
 			c.Server = &net.UDPAddr{IP: sim.ServerIP6, Port: 3478}
+			if dual {
+				c.Server = &net.UDPAddr{IP: sim.ServerIP4, Port: 3478}
+			}
 		}
 		clients = append(clients, c)
 	}
